@@ -214,7 +214,7 @@ func worker(t *testing.T, c core.Cfg) {
 	if c.Tier == "thorough" {
 		maxSeg = 7
 	}
-	sweepDeadline := start.Add(total * 35 / 100)
+	sweepDeadline := start.Add(total * 25 / 100)
 	nSweep := sweep(c.Worker, nw, maxSeg, part.Counters, reportOps("sweep", 0), sweepDeadline)
 	part.Evaluations += nSweep
 	part.Counters.Add("sweep_operations", nSweep)
@@ -223,7 +223,7 @@ func worker(t *testing.T, c core.Cfg) {
 	}
 
 	// phase 2: seeded operation sequences with faults
-	d1 := start.Add(total * 70 / 100)
+	d1 := start.Add(total * 55 / 100)
 	for g := c.Worker; time.Now().Before(d1) && part.HarnessErr == ""; g += nw {
 		seed := core.Derive(c.Seed, "C18", "ops", fmt.Sprint(g))
 		cs := GenCase(seed)
@@ -321,6 +321,13 @@ func TestEngine(t *testing.T) {
 		core.Fatal2("chrootsim serves C18, not %q", c.Property)
 	}
 	if c.Replay != "" {
+		var probe struct {
+			Driver string `json:"driver"`
+		}
+		_ = core.ReadJSON(c.Replay, &probe)
+		if probe.Driver == "cli" {
+			core.Fatal2("replay files of the command-line driver are replayed by the CLI binary: ./check C18 --replay does that automatically")
+		}
 		os.Exit(replay(c))
 	}
 	if c.Worker >= 0 {
@@ -329,15 +336,24 @@ func TestEngine(t *testing.T) {
 		return
 	}
 	start := time.Now()
-	parts := core.SpawnWorkers(c, c.Workers, nil, func(i int) int { return []int{1, 4, 16}[i%3] })
+	cli := c
+	cli.Mode, cli.Bin = "cli", os.Getenv("VERIF_BIN_ORDER")
+	if cli.Bin == "" {
+		core.Fatal2("VERIF_BIN_ORDER not set (run through ./check)")
+	}
+	ncli := 3
+	done := make(chan []*core.Partial, 1)
+	go func() { done <- core.SpawnWorkers(cli, ncli, nil, func(i int) int { return []int{1, 4, 16}[i%3] }) }()
+	parts := core.SpawnWorkers(c, c.Workers-ncli, nil, func(i int) int { return []int{1, 4, 16}[i%3] })
+	parts = append(parts, (<-done)...)
 	m := core.Merge(parts)
 	rule := "one evaluation = one filesystem operation issued through the real syslutil.ChrootFs over a recording, fault-injecting simulated disk " +
 		"(sweep: every path of <= N segments over {'', '.', '..', a, b.c, 'x y'}, relative and absolute, x 6 roots x 15 operations; ops: seeded sequences of 1-30 operations; " +
-		"loader: one load of a generated project through loader.LoadSyslModuleWithSettings); distinct_nontrivial = distinct (root, per-operation (kind, inside/outside, fault)) " +
+		"loader: one load of a generated project through loader.LoadSyslModuleWithSettings; cli: the same projects through the whole command line, sysl --root R pb ... MODULE); distinct_nontrivial = distinct (root, per-operation (kind, inside/outside, fault)) " +
 		"signatures of seeded sequences with >= 2 operations plus distinct loader trees"
 	extra := map[string]interface{}{
 		"simulated_time":  "none (no clock in the anchored code); faults are injected per inner call",
-		"components_real": []string{"syslutil.ChrootFs", "loader.ConfigureProject/LoadSyslModuleWithSettings", "parse.Parser incl. import resolution", "golden-retriever remotefs/filesystem"},
+		"components_real": []string{"syslutil.ChrootFs", "loader.ConfigureProject/LoadSyslModuleWithSettings", "cmd/sysl main2/main3/cmdRunner (driver cli)", "parse.Parser incl. import resolution", "golden-retriever remotefs/filesystem"},
 		"components_stub": []string{"disk (SimFs, with a populated area outside the root)"},
 		"sweep_max_segments": map[string]int{"quick": 4, "thorough": 7}[c.Tier],
 	}
